@@ -1170,7 +1170,7 @@ pub fn run(ctx: &Ctx) -> ! {
     for ty in &types {
         let al = alphabet(ty);
         let a = al.len();
-        let space = if thorough { ColSpace::new(a, &[(a, 4), (6, 5)]) } else { ColSpace::new(a, &[(a, 3), (6, 4)]) };
+        let space = if thorough { ColSpace::new(a, &[(a, 4), (7, 5)]) } else { ColSpace::new(a, &[(a, 3), (6, 4)]) };
         support.insert(ty.name(), json!({"make_comparator": true, "sort": can_sort(ty), "rank": can_rank(ty), "cmp_kernels": can_kernel(ty), "alphabet": a, "columns": space.describe()}));
         jobs.push(TyJob { ty: ty.clone(), al, space: space.clone(), start: total });
         total += space.count();
